@@ -23,6 +23,8 @@ UNIV_R = coreops.RIDS + coreops.FRESH_R + [p + m for p in ("EX_", "DM_", "SK_") 
 UNIV_M = coreops.MIDS + coreops.FRESH_M + ["nope"]
 UNIV_G = coreops.GIDS + ["gX"]
 REV = {r: Reaction(r).reverse_id for r in UNIV_R}
+UNIV_M_SET = set(UNIV_M)
+UNIV_G_SET = set(UNIV_G)
 
 
 def project(model) -> dict:
@@ -48,6 +50,12 @@ def init_line(model, keep_ctx=False) -> str:
 # Renaming a reaction or metabolite (the `id` setters) is not among the operations documented as reverted by a context.
 # Edits of a reaction that is in no model at that moment are not recorded anywhere (there is no model whose context could record them).
 NOT_REVERSIBLE = {"rename_rxn", "rename_met", "ctx_rm_edit", "detached_rule", "detached_bounds"}
+
+
+def in_universe(model) -> bool:
+    """The loops of the Lean model run over the identifier pools handed to it: everything in the model has to come from them."""
+    return all(r.id in REV for r in model.reactions) and all(x.id in UNIV_M_SET for x in model.metabolites) and \
+        all(g.id in UNIV_G_SET for g in model.genes)
 
 
 class Trace:
@@ -86,10 +94,11 @@ def run_trace(rng, spec, nops, kinds=None, oracles=("xref", "sync", "ctx"), extr
         if op["op"] in ("add_mets", "sub_mets") and op["keys"] != "str" and any(m not in ex.model.metabolites for m, _ in op["mets"]):
             modelled = False    # creates a metabolite that is new to the model: outside the modelled fragment so far
         line_op = op
-        if op["op"] == "rm_rxns" and len(op["rs"]) == 1 and not op.get("junk") and not op["orphans"] and op["rs"][0] in ex.model.reactions:
-            # remove_reactions([r], remove_orphans=False) of a reaction of the model: Core.removeRxn
+        if op["op"] == "rm_rxns" and not op.get("junk") and in_universe(ex.model):
+            # remove_reactions(list, remove_orphans): Core.removeRxns (one after the other, identifiers that are not in the model are skipped;
+            # with remove_orphans the metabolites and genes nothing lists any more leave as well)
             modelled = True
-            line_op = {"op": "rm_rxn", "r": op["rs"][0]}
+            line_op = {"op": "rm_rxns", "rs": list(op["rs"]), "orphans": bool(op["orphans"])}
         if op["op"] == "add_rxns" and len(op["rxns"]) == 1 and not op["rxns"][0]["rule"]:
             # add_reactions([R]) with a reaction over metabolites of the model, non-zero coefficients, no rule: Core.addRxn
             r0 = op["rxns"][0]
@@ -102,11 +111,11 @@ def run_trace(rng, spec, nops, kinds=None, oracles=("xref", "sync", "ctx"), extr
             # add_metabolites([Metabolite(m)]): Core.addMet (an id that is taken is filtered out)
             modelled = True
             line_op = {"op": "add_met", "m": op["ms"][0]}
-        if op["op"] == "rm_mets" and len(op["ms"]) == 1 and not op["destructive"] and op["ms"][0] in UNIV_M \
-                and not any(op["ms"][0] in [x.id for x in g.members] for g in ex.model.groups):
-            # remove_metabolites([m], destructive=False): Core.rmMet (the loop over the reactions that list it, then the row leaves the solver)
+        if op["op"] == "rm_mets" and len(op["ms"]) == 1 and op["ms"][0] in UNIV_M and in_universe(ex.model):
+            # remove_metabolites([m], destructive): Core.rmMet (the loop over the reactions that list it subtracts it, then the row leaves the
+            # solver) / Core.rmMetD (the reactions that list it leave the model first)
             modelled = True
-            line_op = {"op": "rm_met", "m": op["ms"][0]}
+            line_op = {"op": "rm_met_d" if op["destructive"] else "rm_met", "m": op["ms"][0]}
         if op["op"] == "imul" and Fraction(op["k"]) != 0:
             # reaction *= k: Core.imul
             modelled = True
